@@ -60,8 +60,12 @@ def opFigGetDim (j : Json) : R Json := do
 
 /-- op `fig_fmt`: model of the suffix table + the blip keyword the spec demands -/
 def opFigFmt (j : Json) : R Json := do
-  let s ← charsF j "suffix"
+  -- either the suffix itself, or a path ("name") whose suffix the model derives (`suffixOfName ∘ baseName`)
+  let s ← match optFld j "name" with
+    | some n => do pure (suffixOfName (baseName (← asChars n)))
+    | none => charsF j "suffix"
   return Json.mkObj [
+    ("suffix", jStr s),
     ("fmt", jOpt (fun f => Json.str (fmtName f)) (fmtOfSuffix s)),
     ("blip", jOpt jStr ((fmtOfSuffix s).map blipWord)),
     ("want_blip", jOpt jStr (wantBlip s))]
@@ -105,7 +109,9 @@ private def jObsPage (p : ObsPage) : Json :=
 def opFigDoc (j : Json) : R Json := do
   let figsJ ← asArr (← fld j "figs")
   let figs ← figsJ.mapM fun f => do
-    let sfx ← charsF f "suffix"
+    let sfx ← match optFld f "name" with
+      | some n => do pure (suffixOfName (baseName (← asChars n)))
+      | none => charsF f "suffix"
     let bs ← listF asNat f "bytes"
     let tr ← match optFld f "truth" with
       | none => pure none
